@@ -66,7 +66,7 @@ def gen_pool(rng, w, n_tables=(2, 4), n_dms=(2, 5), n_ammos=(2, 4), n_atmos=(2, 
             a["powder_temp"] = {"ref": 3} if rng.random() < 0.3 else [round(rng.uniform(0, 30), 1), "Celsius"]
         if rng.random() < 0.3:
             a["use_ps"] = True
-            a["temp_modifier"] = round(rng.uniform(0.1, 1.5), 3)
+            a["temp_modifier"] = round(rng.uniform(0.002, 0.05), 4)     # fraction of v0 per 15 C (README example: 0.0123)
         w["ammos"].append(a)
     w["shared_ammos"] = len(w["ammos"])
     for _ in range(rng.randint(*n_atmos)):
@@ -287,8 +287,10 @@ def gen_client_program(rng, w, task_idx, calcs, shots, n_ops, raising_calcs, all
                 shots.append(len(w["shots"]) - 1)
             aid = own_ammos[0]
             if rng.random() < 0.6:
-                prog.append({"op": "powder", "ammo": aid, "v": [round(rng.uniform(2300, 3000), 1), "FPS"],
-                             "t": [round(rng.uniform(-20, 40), 1), "Celsius"]})
+                # a realistic second measurement: a few percent of the stated velocity, at least 10 C away from it
+                base = gen.to_fps(w["ammos"][aid]["mv"])
+                prog.append({"op": "powder", "ammo": aid, "v": [round(base * (1 + rng.uniform(-0.04, 0.04)), 1), "FPS"],
+                             "t": [round(15.0 + gen.pick(rng, [-1, 1]) * rng.uniform(10, 35), 1), "Celsius"]})
             else:
                 prog.append({"op": "vel_for_temp", "ammo": aid, "t": [round(rng.uniform(-20, 40), 1), "Celsius"]})
     # any calculator never created would be unused: fine
@@ -350,6 +352,17 @@ def gen_units_flip_program(rng, n):
             s = pick_slot(rng)
             prog.append({"op": "basic_config", "units": {s: pick_unit(rng, SLOTS[s][0])}})
     return prog
+
+
+def tame_for_line_mode(programs, cfg):
+    """full line tracing costs ~60 events per integration step: far zeroings (thousands of yards, up to 20+ trial
+    trajectories) belong to the cheaper modes - rewrite them to a moderate distance when the run traces every line"""
+    if cfg.get("mode") != "line":
+        return
+    for p in programs:
+        for op in p:
+            if op.get("op") in ("zero", "elev") and isinstance(op.get("dist"), list) and gen.to_feet(op["dist"]) > 4500:
+                op["dist"] = [1500.0, "Yard"]
 
 
 def gen_interrupts(rng, programs, roles, mode, max_n):
